@@ -1,6 +1,6 @@
 import Driver.Util
 import Driver.C04
-import TemporalModel.Model.DateTime
+import TemporalModel.Model.Relative
 import TemporalModel.Spec.Round
 namespace Driver
 open TemporalModel
@@ -30,9 +30,7 @@ def handleC05 (toks : List String) : Option String :=
         let o ← rawOptions l s inc m
         match a, b, o with
         | .ok a, .ok b, .ok o =>
-          match plainDateTimeDiff (op == "pdt_since") a b o with
-          | some r => some (r.render Dur.render)
-          | none => some "?rounding-path"
+          some ((plainDateTimeDiffFull (op == "pdt_since") a b o).render Dur.render)
         | .ok _, .ok _, .err k => some ("err " ++ k.name)
         | .ok _, .err k, _ => some ("err " ++ k.name)
         | .err k, _, _ => some ("err " ++ k.name)
